@@ -148,7 +148,7 @@ def s_modes(draw, tier):
     ops = []
     for _ in range(n):
         kind = draw(st.sampled_from(["write", "overwrite", "read", "remove-read", "remove-write", "remove-overwrite",
-                                     "remove-temp", "export", "export-overwrite"]))
+                                     "remove-temp", "export", "export-overwrite", "foreign-file", "foreign-file"]))
         ops.append({"op": kind, "name": draw(st.sampled_from(NAMES)), "marker": draw(st.integers(1, 99))})
     return {"ops": ops}
 
@@ -176,6 +176,15 @@ def run_modes(case):
                 pt = P.FileProcessTensor(mode=mode, filename=fn, hilbert_space_dimension=2, dt=0.1)
                 pt.set_mpo_tensor(0, ten)
                 return pt
+            if kind == "foreign-file":
+                # a file that is not a (valid) process tensor file: empty or garbage bytes
+                if exists:
+                    continue
+                with open(fn, "wb") as f:
+                    f.write(b"" if marker % 2 else b"not an hdf5 file " * marker)
+                model[op["name"]] = ("foreign", _sha(fn))
+                continue
+            foreign = exists and isinstance(model[op["name"]], tuple)
             if kind in ("write", "overwrite"):
                 before = _sha(fn) if exists else None
                 try:
@@ -219,6 +228,16 @@ def run_modes(case):
                 else:
                     touched_existing |= exists
                     model[op["name"]] = marker
+            elif kind in ("read", "remove-read") and foreign:
+                touched_existing = True
+                try:
+                    pt = P.FileProcessTensor(mode="read", filename=fn)
+                    out.fail("foreign-file-opened", f"step {i}: a file that is no process tensor file opened in read mode")
+                    pt.close()
+                except Exception:
+                    pass
+                if not os.path.exists(fn) or _sha(fn) != model[op["name"]][1]:
+                    out.fail("foreign-file-modified-by-read", f"step {i}")
             elif kind == "read":
                 try:
                     pt = P.FileProcessTensor(mode="read", filename=fn)
